@@ -50,7 +50,7 @@ VARIABLES
   flast,     \* ghost: commands whose last execution failed
   tampered,  \* ghost: output paths overwritten from outside since their command last wrote them
   quiet,     \* ghost: nothing happened since a successful build with database of these targets
-  alldb,     \* ghost: every build so far used the database
+  alldb,     \* ghost: "none" | "db" | "nodb" | "mixed": database modes of the builds so far
   last       \* ghost: description of the last step, for the invariants
 
 vars == <<mf, tmpl, fs, marks, db, clock, b, mem, epoch, st, fin, sawc, seen, flast, tampered, quiet, alldb, last>>
@@ -270,7 +270,8 @@ BuildBegin(tg, o) ==
   /\ mem' = IF o.db THEN db.rows ELSE EmptyRows
   /\ epoch' = (IF o.db THEN db.epoch ELSE 0) + 1
   /\ st' = [k \in Keys |-> "idle"] /\ fin' = {} /\ sawc' = {}
-  /\ alldb' = (alldb /\ o.db)
+  /\ alldb' = (IF alldb = "none" THEN (IF o.db THEN "db" ELSE "nodb")
+             ELSE IF (alldb = "db") = o.db /\ alldb # "mixed" THEN alldb ELSE "mixed")
   /\ quiet' = NotQuiet /\ last' = NoLast
   /\ UNCHANGED <<mf, tmpl, fs, marks, db, clock, seen, flast, tampered>>
 
@@ -373,17 +374,21 @@ CancelSkip(k, deps) ==
   /\ UNCHANGED <<mf, tmpl, fs, marks, clock, epoch, seen, flast, tampered, quiet, alldb>>
 
 (* phony: never runs anything.  An alias (output is not a file) stands for  *)
-(* its newest input; without a usable input it is always dirty.             *)
+(* its newest input; without a usable input it is always dirty; a failed,   *)
+(* skipped or missing input is propagated.                                  *)
 FinishPhony(k, deps) ==
   /\ b.on /\ Ready(k) /\ IsCmd(k) /\ Phony(k) /\ ~MustCancel(k) /\ ReqDepsOK(k, deps)
   /\ LET c == CmdOf(k) IN
-     IF AnyOutMissing(c) /\ ~ShouldSkip(k) /\ CanUpd0(k) /\ Newest(k) # 0
+     IF ShouldSkip(k)
+     THEN Commit(k, Val("skipped", <<>>, NoSig), FALSE, deps, FALSE)
+     ELSE IF AnyOutMissing(c) /\ CanUpd0(k) /\ Newest(k) # 0
      THEN Commit(k, Val("success", [i \in 1..Len(C(c).outs) |->
                                       IF OutInfos(c)[i].ex THEN OutInfos(c)[i] ELSE [ex |-> TRUE, mt |-> Newest(k)]], Sig(c)),
                  FALSE, deps, TRUE)
      ELSE Commit(k, Val("success", OutInfos(c), Sig(c)), AnyOutMissing(c), deps, TRUE)
   /\ b' = [b EXCEPT !.errs = @ \/ HasMissing(k)]
-  /\ last' = [a |-> "Step", how |-> IF AnyOutMissing(CmdOf(k)) /\ ~ShouldSkip(k) /\ CanUpd0(k) /\ Newest(k) # 0 THEN "alias" ELSE "phony"]
+  /\ last' = [a |-> "Step", how |-> IF ShouldSkip(k) THEN "alias-skip"
+                                   ELSE IF AnyOutMissing(CmdOf(k)) /\ CanUpd0(k) /\ Newest(k) # 0 THEN "alias" ELSE "phony"]
   /\ UNCHANGED <<mf, tmpl, fs, marks, clock, epoch, sawc, seen, flast, tampered, quiet, alldb>>
 
 (* update-if-newer: outputs exist and are not older than the newest input,  *)
@@ -439,7 +444,12 @@ Justified(k) ==
      \/ \E p \in watch : ViewInfo(p) # SeenInfo(p)
      \/ \E p \in watch : ProducerOf(p) # "" /\ ProducerOf(p) \in Range(b.execd)
 
-InputsFine(k) == \A i \in 1..Len(Reqs(k)) : Good(InVals(k)[i])
+(* no input comes from a failed or skipped producer, also not through a phony alias *)
+RECURSIVE FineP(_)
+FineP(p) == /\ Good(mem[p])
+            /\ (ProducerOf(p) # "" /\ C(ProducerOf(p)).phony) =>
+                  \A q \in Range(Filt(ProducerOf(p), C(ProducerOf(p)).ins \o C(ProducerOf(p)).imp)) : FineP(q)
+InputsFine(k) == \A i \in 1..Len(Reqs(k)) : FineP(Reqs(k)[i])
 
 FinishExec(k, t, deps, chg) ==
   /\ b.on /\ Ready(k) /\ IsCmd(k) /\ ~Phony(k) /\ ~MustCancel(k)
@@ -542,6 +552,8 @@ FreeSilent(k, deps, chg) ==       \* only reachable once the cancel flag is set
 -----------------------------------------------------------------------------
 (* Properties (state predicates over the ghost record of the last step)     *)
 
+AllDB == alldb \in {"none", "db"}
+Mixed == alldb = "mixed"      \* a --no-db build leaves no record: what it did is invisible to later builds with the database
 OutPathsOf(S) == UNION {Range(C(c).outs) : c \in {x \in S : ~C(x).phony}}
 GoodEnd == last.a = "BuildEnd" /\ last.rc = 0
 Untampered(S) == tampered \cap (OutPathsOf(S) \cup UNION {InPaths(c) : c \in S}) = {}
@@ -561,7 +573,7 @@ NinjaNullBuild ==
 (* a command only starts when everything it has to follow is complete, and  *)
 (* never runs for the sake of an order-only input alone                     *)
 OrderOnlyOrdersButNeverTriggers ==
-  last.a = "Exec" => (last.ordered /\ (alldb => last.just))
+  last.a = "Exec" => (last.ordered /\ (AllDB => last.just))
 
 (* the last successful execution of every reachable command saw the current *)
 (* state of its implicit and depfile-discovered (and explicit) inputs       *)
@@ -569,14 +581,14 @@ SawCurrent(c, paths) ==
   seen[c].on /\ \A p \in paths :
      \E i \in 1..Len(seen[c].ps) : seen[c].ps[i] = p /\ seen[c].is[i] = ViewInfo(p)
 ImplicitAndDepfileTrigger ==
-  GoodEnd => LET R == Reach(last.tg) IN
+  (GoodEnd /\ ~Mixed) => LET R == Reach(last.tg) IN
              Untampered(R) =>
                \A c \in R : (~C(c).phony /\ ~C(c).gen) =>        \* generator commands are trusted on timestamps alone
                   SawCurrent(c, Range(C(c).imp) \cup (IF C(c).dep THEN Range(C(c).reads) ELSE {}) \cup Range(C(c).ins))
 
 (* ... and ran with the current command line *)
 CommandLineChangeReruns ==
-  GoodEnd => LET R == Reach(last.tg) IN
+  (GoodEnd /\ ~Mixed) => LET R == Reach(last.tg) IN
              Untampered(R) =>
                \A c \in R : (~C(c).phony /\ ~C(c).gen) => (seen[c].on /\ seen[c].sig = Sig(c))
 
@@ -585,7 +597,7 @@ CommandLineChangeReruns ==
 (* failed                                                                   *)
 FailureStopsAndRetries ==
   /\ last.a = "Exec" => last.fine
-  /\ (GoodEnd /\ alldb) => Reach(last.tg) \cap flast = {}
+  /\ (GoodEnd /\ AllDB) => Reach(last.tg) \cap flast = {}
   /\ GoodEnd => \A c \in Reach(last.tg) :
                   LET k == IF Multi(c) THEN c ELSE C(c).outs[1] IN Done(k) => mem[k].kind = "success"
 
